@@ -6,20 +6,21 @@ HARNESSES = [dict(name="ha", pkg="./pkg/ha/", test="TestVerifC11", timeout=900,
                   files=[("pkg/ha/zz_verif_c11_test.go", "harness/C11/zz_verif_c11_test.go"),
                          ("pkg/allocator/zz_verif_c11_alloc.go", "harness/C11/zz_verif_c11_alloc.go")])]
 # repaired first (the theorems are proved for it); one variant per recorded defect; defective = all of them together
-# repaired first (the theorems are proved for it); d_range = only Range as today; d_recv_fixed = what remains once
-# fixes/C11_receiver_release.patch is applied (stale redelivery + bulk replay); defective = the code as it is today
-VARIANTS = ["repaired", "d_range", "d_recv_fixed", "defective"]
+# repaired first (the theorems are proved for it); d_range = only Range as before bb5ec1b; d_stale_bulk = /repo HEAD since
+# 88d6de6 (stale redelivery + bulk replay); d_stale = what remains once fixes/C11_bulk_latest_live.patch is applied;
+# defective = the code before the C11 fixes
+VARIANTS = ["repaired", "d_range", "d_stale", "d_stale_bulk", "defective"]
 # known-finding signatures = input class of the case (the generator mode is part of the case text)
 SIG = {"huge": "backlog-range-seq-ge-2^63", "stale": "stale-redelivery-applied",
        "drop": "update-drops-address-stays-reserved", "bulk": "bulk-replay-turns-delete-into-store",
        "relall": "release-by-address-ignores-pool"}
 RULE = ("rng: ring capacities {1..9, 16, 0 and -1 (=10000)} x pushed runs of consecutive uint64 sequence numbers (fresh, wrapped "
         "1..3 times, starting at 1 / large / just below 2^63), queried with every (from,to) in a window around the retained "
-        "range plus empty, inverted, far-away and (class 'huge') >= 2^63 bounds. "
+        "range plus empty, inverted, far-away and (class 'huge') >= 2^63 bounds; every answer is held by the caller and read again after each of cap+1 further pushes. "
         "hist: a registry with 2-3 IPv4, 2 IANA and 2 PD pools; 12-45 operations over 7 sessions (IPoE/PPPoE/L2GW, optional "
         "v4/IANA/PD/pool names/VRF/relay info/user, unknown and empty SRG, unparseable prefix, out-of-pool address) with "
-        "in-order deliveries lagging behind the events, duplicates and range replays ending at the newest delivered message "
-        "(mode clean), plus one trigger class per case: stale redelivery (mode stale), address change/drop by an update (mode "
+        "in-order deliveries lagging behind the events, deliveries whose store write fails followed by their retransmission, duplicates and range replays ending at the newest delivered message "
+        "(mode clean; mode fresh: SRG 2 is delivered nothing until a bulk sync at the end that runs on a full ring while the active node handles 1-3 more events after every page), plus one trigger class per case: stale redelivery (mode stale), address change/drop by an update (mode "
         "drop), bulk replay with deletes in the window (mode bulk), same address in two named pools (mode relall).  Every "
         "history ends with all messages delivered.  Non-trivial: rng case with at least one non-empty answer and one empty; "
         "hist case whose final store is non-empty and at least one session was released.  Distinct: by case text.")
@@ -40,8 +41,9 @@ T64 = 1 << 64
 # ------------------------------------------------------------------ rng cases
 def rng_case(cap, segs, qs):
     cls = "huge" if any(a >= T63 or b >= T63 for a, b in qs) else "std"
-    return "rng %s %d %d %s %d %s" % (cls, cap, len(segs), " ".join("%d+%d" % s for s in segs), len(qs),
-                                   " ".join("%d %d" % q for q in qs))
+    # A:<n>: the caller keeps every answer while n more entries are pushed (the ring wraps over every slot)
+    return "rng %s %d %d %s %d %s A:%d" % (cls, cap, len(segs), " ".join("%d+%d" % s for s in segs), len(qs),
+                                   " ".join("%d %d" % q for q in qs), (cap if cap > 0 else 10000) + 1)
 
 
 def gen_rng(rng, tier, out):
@@ -90,7 +92,7 @@ V4 = {1: (0x0A000001, 0x0A00000C, 0x0A000001), 2: (0x0A000101, 0x0A000108, 0), 3
 NA_BASE = {1: 0x20010DB8 << 96, 2: (0x20010DB8 << 96) | (1 << 80)}
 NA = {1: (NA_BASE[1] + 1, NA_BASE[1] + 10, 0), 2: (NA_BASE[2] + 1, NA_BASE[2] + 8, NA_BASE[2] + 1)}
 PD = {1: ((0x20010DB8 << 96) | (0x100 << 80), 48, 56), 2: ((0x20010DB8 << 96) | (0x200 << 80), 60, 64)}
-KIND = {1: "I", 2: "I", 3: "I", 4: "P", 5: "P", 6: "L", 7: "I"}
+KIND = {1: "I", 2: "I", 3: "I", 4: "P", 5: "P", 6: "L", 7: "I", 8: "P", 10: "I", 12: "L"}
 
 
 def pool_tokens(mode):
@@ -225,6 +227,10 @@ def ev_token(s, rel):
 
 def gen_hist(rng, mode, nops):
     cap = rng.choice([2, 3, 4, 8, 64])
+    fresh = mode == "fresh"       # SRG 2's standby side is fresh: nothing is delivered until a bulk sync at the end,
+    if fresh:                     # which runs while the active node keeps renewing a session (ring exactly full)
+        mode = "clean"
+        cap = rng.choice([2, 3, 4, 6])
     act = Active(rng, mode)
     ops = []
     sent = {1: [], 2: []}      # per srg: list of (is_delete, key)
@@ -233,12 +239,17 @@ def gen_hist(rng, mode, nops):
         x = rng.random()
         if x < 0.55:
             sid = rng.randint(1, 7)
+            if fresh:
+                # every SRG-2 session gets exactly one event (so that the replayed window has one entry per session)
+                sid = rng.choice([1, 2, 3, 4, 5, 6, 7, 8, 10, 12])
+                if sid % 2 == 0 and (len(sent[2]) >= cap or sid in act.live):
+                    sid = rng.choice([1, 3, 5, 7])
             s = act.live.get(sid)
             if s is None:
                 s = act.fresh(sid)
                 act.live[sid] = s
                 rel = False
-            elif rng.random() < 0.3:
+            elif rng.random() < 0.3 and not (fresh and s["srg"] == 2):
                 rel = True
             else:
                 rel = False
@@ -259,12 +270,19 @@ def gen_hist(rng, mode, nops):
                 act.free(s)
                 del act.live[sid]
         elif x < 0.85:
-            g = rng.choice([1, 2])
+            g = 1 if fresh else rng.choice([1, 2])
+            if nxt[g] < len(sent[g]) and rng.random() < 0.12:
+                # the standby's store write fails: the request is lost and retransmitted before anything newer
+                nxt[g] += 1
+                ops += ["DF:%d" % g, "R:%d:%d" % (g, nxt[g])]
+                if rng.random() < 0.3:
+                    ops.append("RF:%d:%d" % (g, nxt[g]))
+                continue
             ops.append("D:%d" % g)
             if nxt[g] < len(sent[g]):
                 nxt[g] += 1
         else:
-            g = rng.choice([1, 2])
+            g = 1 if fresh else rng.choice([1, 2])
             m = nxt[g]
             y = rng.random()
             if mode == "stale" and m >= 2 and y < 0.6:
@@ -293,6 +311,22 @@ def gen_hist(rng, mode, nops):
                     ops.append("R:%d:%d" % (g, m))                      # duplicate of the newest delivered message
                 else:
                     ops.append("P:%d:%d:%d" % (g, rng.randint(0, m), m))  # replay ending at the newest delivered one
+    page = rng.choice([1, 2, 1000])
+    if fresh:
+        page = rng.choice([1, 1, 2])
+        for sid in (2, 4, 6, 8, 10, 12):          # fill the ring of SRG 2 exactly
+            if len(sent[2]) < cap and sid not in act.live:
+                act.live[sid] = act.fresh(sid)
+                ops.append(ev_token(act.live[sid], False))
+                sent[2].append((False, (KIND[sid], sid)))
+        live2 = [s for s in act.live.values() if s["srg"] == 2]
+        if live2:
+            k = rng.randint(1, 3)
+            ops.append("C:2:%d:%s" % (k, ev_token(rng.choice(live2), False)[2:]))
+            ops += ["D:2"] * (cap * k + 2)
+        else:
+            ops.append("B:2")
+        nxt[2] = len(sent[2])
     for g in (1, 2):
         while nxt[g] < len(sent[g]):
             ops.append("D:%d" % g)
@@ -310,14 +344,14 @@ def gen_hist(rng, mode, nops):
                 ops.append("R:%d:%d" % (g, k))
     if mode == "clean" and rng.random() < 0.2:
         ops.append("D:1")                      # nothing left: no-op
-    return "hist %s %d %d %s %s" % (mode, cap, rng.choice([1, 2, 1000]), " ".join(pool_tokens(mode)), " ".join(ops))
+    return "hist %s %d %d %s %s" % ("fresh" if fresh else mode, cap, page, " ".join(pool_tokens(mode)), " ".join(ops))
 
 
 def gen_cases(rng, tier, budget):
     out = []
     gen_rng(rng, tier, out)
     n = (budget or 900) if tier == "quick" else (budget or 12000)
-    modes = ["clean"] * 4 + ["stale", "drop", "bulk", "relall"]
+    modes = ["clean"] * 3 + ["fresh", "stale", "drop", "bulk", "relall"]
     for i in range(n):
         mode = modes[i % len(modes)]
         out.append(gen_hist(rng, mode, rng.randint(12, 45)))
@@ -334,6 +368,8 @@ def nontrivial(case, out):
     if case.startswith("rng"):
         parts = out.split(" ; ")[1:]
         return any(p == "nil" for p in parts) and any(p not in ("nil", "panic") for p in parts)
+    if case.split()[1] == "fresh":
+        return "store=[]" not in out
     return "store=[]" not in out and ":1:" in "".join(t[:14] for t in case.split() if t.startswith("E:"))
 
 
@@ -343,9 +379,14 @@ def classify(case, impl, model):
         k = [i for i, (a, b) in enumerate(zip(ip, mp)) if a != b]
         if ip[0] != mp[0]:
             return "P", "backlog size/oldest/newest differ: impl=%r model=%r" % (ip[0], mp[0])
-        qs = case.split()
+        qs = [t for t in case.split() if not t.startswith("A:")]
         nseg = int(qs[3])
         q = qs[5 + nseg:]
+        rw = [i for i in k if "~>" in ip[i]]
+        if rw:
+            i = rw[0]
+            return "P", ("the answer of Range(%s,%s) changed while the caller still held it: %s (value@pushes after the call)"
+                         % (q[2 * (i - 1)], q[2 * (i - 1) + 1], ip[i]))
         what = ["Range(%s,%s): impl=%s expected=%s" % (q[2 * (i - 1)], q[2 * (i - 1) + 1], ip[i], mp[i]) for i in k[:3]]
         return "P", "Range does not return exactly the retained entries of the requested range: " + "; ".join(what)
     ic, ipl = _flags(impl)
@@ -367,13 +408,16 @@ def signature(case, impl, models):
 def shrink(case):
     t = case.split()
     if t[0] == "rng":
+        aft = [x for x in t if x.startswith("A:")]
+        t = [x for x in t if not x.startswith("A:")]
         nseg = int(t[3])
         segs = t[4:4 + nseg]
         q = t[5 + nseg:]
         qs = [(q[2 * i], q[2 * i + 1]) for i in range(len(q) // 2)]
 
         def emit(segs, qs):
-            return "rng %s %s %d %s %d %s" % (t[1], t[2], len(segs), " ".join(segs), len(qs), " ".join("%s %s" % x for x in qs))
+            return " ".join(["rng %s %s %d %s %d %s" % (t[1], t[2], len(segs), " ".join(segs), len(qs),
+                                                        " ".join("%s %s" % x for x in qs))] + aft)
         if len(qs) > 1:
             yield emit(segs, qs[:len(qs) // 2])
             yield emit(segs, qs[len(qs) // 2:])
@@ -394,6 +438,10 @@ def shrink(case):
         yield " ".join(head + rest[:i] + rest[i + 1:])
     # simplify events: drop optional fields
     for i, tok in enumerate(rest):
+        if tok.startswith("C:"):
+            f = tok.split(":")
+            if int(f[2]) > 1:
+                yield " ".join(head + rest[:i] + [":".join(f[:2] + [str(int(f[2]) - 1)] + f[3:])] + rest[i + 1:])
         if tok.startswith("E:"):
             f = tok.split(":")
             for j, v in ((9, "-"), (11, "-"), (13, "-"), (17, "-"), (18, "-"), (8, "0"), (16, "0")):
@@ -405,12 +453,12 @@ def shrink(case):
 
 def distribution(cases, impl):
     d = {"rng": 0, "rng_queries": 0, "rng_nil": 0, "rng_panic": 0, "hist": 0, "events": 0, "releases": 0, "deliver": 0,
-         "redeliver": 0, "replay": 0, "bulk": 0, "conv_bad": 0, "pools_bad": 0, "handler_panics": 0,
+         "redeliver": 0, "replay": 0, "bulk": 0, "bulk_churn": 0, "store_failures": 0, "conv_bad": 0, "pools_bad": 0, "handler_panics": 0,
          "kinds": {"I": 0, "P": 0, "L": 0}, "with_v4": 0, "with_v6": 0, "with_pd": 0, "ops_max": 0}
     for c, o in zip(cases, impl):
         if c.startswith("rng"):
             d["rng"] += 1
-            p = (o or "").split(" ; ")[1:]
+            p = [x.split("~>")[0] for x in (o or "").split(" ; ")[1:]]
             d["rng_queries"] += len(p)
             d["rng_nil"] += p.count("nil")
             d["rng_panic"] += p.count("panic")
@@ -428,8 +476,10 @@ def distribution(cases, impl):
                 d["with_v4"] += f[9] != "-"
                 d["with_v6"] += f[11] != "-"
                 d["with_pd"] += f[13] != "-"
-            elif k in "DRPB":
-                d[{"D": "deliver", "R": "redeliver", "P": "replay", "B": "bulk"}[k]] += 1
+            elif t.startswith(("DF", "RF")):
+                d["store_failures"] += 1
+            elif k in "DRPBC":
+                d[{"D": "deliver", "R": "redeliver", "P": "replay", "B": "bulk", "C": "bulk_churn"}[k]] += 1
             else:
                 continue
             nops += 1
